@@ -578,6 +578,8 @@ def o_c15(run):
 
 def o_c16(run):
     out = []
+    if run.kv.get('binary') == '1':
+        return out          # runs of the real executable are judged by the (relabelled) C17 oracle
     allow = run.kv.get('allow', 'none')
     for g, pd, praw in http_groups(run):
         r = g.ops[0]
@@ -846,6 +848,42 @@ def o_c03(run):
 
 EMPTY_CLIENT = 'latest=none snap=- data=none'
 CREATED_CLIENT = 'latest=00000000-0000-0000-0000-000000000000 snap=- data=none'
+
+def o_c13_max(run):
+    """payloads at the protocol's size limit: same outcome on both backends, and the bytes come back"""
+    out = []
+    if run.setup != 'maxrow':
+        return out
+    seen = {}
+    for r in run.recs:
+        if r.ws[0] != 'xcmp':
+            continue
+        seen[r.ws[2]] = (r, r.impl)
+        ik = dict(w.split('=', 1) for w in (r.impl or '').split() if '=' in w)
+        if ik.get('roundtrip') == '0':
+            out.append(fail('C06: a payload of up to the size limit is returned byte for byte', r, f'backend {r.ws[2]}: {r.impl}'))
+    if len(seen) >= 2:
+        vals = {v for (_, v) in seen.values()}
+        if len(vals) > 1:
+            r = seen.get('sql', next(iter(seen.values())))[0]
+            out.append(fail('C13: the same request history yields the same responses on every storage backend (payload at the size limit)', r, ' vs '.join(f'{k}: {v}' for k, (_, v) in sorted(seen.items()))))
+    return out
+
+def o_c04_bin(run):
+    """the real executable killed under concurrent load and restarted through its own main: acknowledged versions are served"""
+    out = []
+    if run.setup != 'binary-crash':
+        return out
+    for r in run.recs:
+        if r.ws[0] == 'restart' and r.impl != 'ok':
+            out.append(fail('C04: after a crash the server starts again on the same directory', r, f'restart {r.impl}'))
+        if r.ws[0] != 'xhttp' or (r.meta or {}).get('op') != 'ackcheck':
+            continue
+        ih = parse_http_obs(r.impl)
+        want = r.meta.get('want')
+        if not ih or ih.get('status') != 200 or ih.get('vid') != want:
+            out.append(fail('C04: every acknowledged AddVersion is still present after a crash (real executable, killed under concurrent load, restarted)', r, f'acknowledged version {want}; after the restart GetChildVersion of its parent answers {ih.get("status") if ih else None} vid={ih.get("vid") if ih else None}'))
+    return out
 
 def o_c04(run):
     out = []
